@@ -96,9 +96,20 @@ func (g *Engine) registerStringIntrinsics() {
 	// ---- recording stubs for DialURI (C17): TLS/DTLS wrappers, resolver, ticker ----
 	fieldByName := func(e *Exec, pv Value, name string, pos token.Pos) Value {
 		p := e.ptr(pv, pos)
-		st, ok := p.obj.typ.Underlying().(*types.Struct)
-		if !ok || len(p.path) != 0 {
-			e.unsupported("config pointer is not a whole struct object")
+		t := p.obj.typ
+		for _, ix := range p.path { // the pointer may address a struct embedded in a larger object (&cfg.TLSConfig)
+			switch u := t.Underlying().(type) {
+			case *types.Struct:
+				t = u.Field(ix).Type()
+			case *types.Array:
+				t = u.Elem()
+			default:
+				e.unsupported("config pointer through %s", t)
+			}
+		}
+		st, ok := t.Underlying().(*types.Struct)
+		if !ok {
+			e.unsupported("config pointer does not address a struct")
 		}
 		for i := 0; i < st.NumFields(); i++ {
 			if st.Field(i).Name() == name {
